@@ -17,6 +17,37 @@ LEDGER_WRITERS = {
 STATE_BUILDERS = {'args::inner::State::construct': 'tokenizer', '<args::inner::State as std::clone::Clone>::clone': 'derived Clone'}
 PARSED_BUILDERS = {'args::inner::State::construct': 'pre-consumes the `--` marker', 'args::inner::State::remove': 'consumption'}
 
+# who may call the primitives that consume / read single ledger entries (resolved callers on the reviewed tree)
+LEDGER_CALLERS = {
+    r'^args::inner::State::remove$': {
+        'args::<impl args::inner::State>::take_flag': 'the flag consumer', 'args::<impl args::inner::State>::take_arg': 'the argument consumer (name and value)',
+        'args::<impl args::inner::State>::take_cmd': 'the command-name consumer', 'args::<impl args::inner::State>::take_positional_word': 'the positional consumer',
+        '<params::ParseAny<T> as Parser<T>>::eval': '`any`: removes the item (and an attached value) its check accepted'},
+    r'^args::inner::State::get$': {
+        'args::<impl args::inner::State>::take_arg': 'reads the value slot next to the matched name',
+        'error::Message::render': 'quotes the offending item in the message'},
+    r'^args::inner::State::set_scope$': {
+        "<args::inner::ArgRangesIter<'a> as std::iter::Iterator>::next": 'adjacent group: window starting at a present item',
+        '<params::ParseCommand<T> as Parser<T>>::eval': 'command: `name..end`, adjacency narrowing and restore',
+        '<structs::ParseAdjacent<P> as Parser<T>>::eval': 'adjacent group: trim / restore',
+        'error::summarize_missing': 'error text: looks at the whole line on a private clone'},
+}
+
+def ledger_callers(ctx, cfg, fs, rule):
+    """an item is taken off the line only by the five consumers: a parser that peeks at / removes a neighbouring item on its
+    own (a flag eating a following `true`) makes the outcome depend on what happens to stand next to it"""
+    for rx, table in LEDGER_CALLERS.items():
+        seen = {}
+        for b in fs.bodies.values():
+            for c in b.calls():
+                if c.is_(rx):
+                    seen.setdefault(outer(b.path), c.where())
+        if not seen:
+            raise Broken('no caller of %s found' % rx)
+        prim = rx.strip('^$').split('::')[-1]
+        for fn, where in sorted(seen.items()):
+            ctx.ob(rule, 'callers:%s<-%s' % (prim, short(fn)), fn in table, '%s calls State::%s: %s' % (short(fn), prim, table.get(fn, 'NOT a listed caller (only the primitive consumers touch single items of the ledger)')), where=where, cfg=cfg)
+
 def field_accesses(place):
     return [(pr[2], pr[4]) for pr in place[1] if pr[0] == 'f']
 
